@@ -212,6 +212,14 @@ func SingleConstructs() []*ref.Pat {
 			out = append(out, &ref.Pat{K: "br", Neg: neg, Items: []*ref.Pat{{K: "rng", R: rg[0], R2: rg[1]}}})
 		}
 		out = append(out, &ref.Pat{K: "br", Neg: neg, Items: []*ref.Pat{{K: "lit", R: 'a'}, {K: "rng", R: 'x', R2: 'z'}, {K: "cls", Name: `\d`}, {K: "posix", Name: "[:blank:]"}}})
+		// ranges of one character; ranges that end at the last code point
+		for _, rg := range [][2]rune{{'0', '0'}, {'A', 'A'}, {'b', 'b'}, {0xE9, 0xE9}, {0x10FFFE, 0x10FFFF}, {0x10FFFF, 0x10FFFF}, {0x10FFFD, 0x10FFFF}} {
+			if neg && rg[0] > 0x7F {
+				continue
+			}
+			out = append(out, &ref.Pat{K: "br", Neg: neg, Items: []*ref.Pat{{K: "rng", R: rg[0], R2: rg[1]}}})
+			out = append(out, &ref.Pat{K: "br", Neg: neg, Items: []*ref.Pat{{K: "lit", R: 'x'}, {K: "rng", R: rg[0], R2: rg[1], Spell: 8}}})
+		}
 	}
 	// every ASCII character as a literal in its canonical spelling, and in every escape form
 	for r := rune(1); r <= 0x7F; r++ {
